@@ -252,6 +252,9 @@ func resolveIfCollapsed(n node, pos byte, db data.DBWriteCacher) (err error)
   trusted
   ensures  ext-child-loaded: err == nil && typeIs(n, ptr_extensionNode) ==> asExt(n).child != nil
   ensures  keys-kept: typeIs(n, ptr_extensionNode) ==> asExt(n).Key == old(asExt(n).Key)
+  // (C10, agent Q: two clauses added to this trusted contract; branchNode.resolveCollapsed writes children[pos] only)
+  ensures  branch-child-loaded: err == nil && typeIs(n, ptr_branchNode) && pos < 17 ==> asBranch(n).children[pos] != nil || len(asBranch(n).EncodedChildren[pos]) == 0
+  ensures  branch-other-children-kept: typeIs(n, ptr_branchNode) ==> (forall k :: 0 <= k && k < 17 && k != pos ==> asBranch(n).children[k] == old(asBranch(n).children[k]))
   assigns  asExt(n).child, asBranch(n).children
 
 // leaf: the value iff the remaining key equals the leaf's key, else "absent" (nil, nil)
@@ -295,4 +298,271 @@ lemma round-trip-key
   concl hex-never-empty: len(h) >= 1
   concl decodes: err == nil
   concl same-key: len(k) == len(s) && (forall j :: 0 <= j && j < len(s) ==> k[j] == s[j])
+@*/
+
+/*@
+// ---------------------------------------------------------------------------------------------------------------
+// C10 / C09 (agent Q) — trieStorageManager: the "pruning blocked" counter and the snapshot / checkpoint request queue.
+// While a snapshot or checkpoint is requested or running the counter is > 0; storagePruningManager consults IsPruningBlocked
+// and deletes nothing while it answers true (C09: blocked-deletes-no-node), so the database a snapshot traverses only grows.
+
+struct trieStorageManager
+  guarded_by storageOperationMutex: pruningBlockingOps, snapshots, snapshotId
+
+func (tsm *trieStorageManager) EnterPruningBufferingMode()
+  requires fewer-than-2^32-blocking-operations-in-progress: tsm.pruningBlockingOps < 4294967295      // uint32 counter: one more would wrap to "not blocked"
+  ensures  counted: tsm.pruningBlockingOps == old(tsm.pruningBlockingOps) + 1
+  assigns  tsm.pruningBlockingOps
+
+func (tsm *trieStorageManager) ExitPruningBufferingMode()
+  ensures  released: old(tsm.pruningBlockingOps) >= 1 ==> tsm.pruningBlockingOps == old(tsm.pruningBlockingOps) - 1
+  ensures  never-negative: old(tsm.pruningBlockingOps) == 0 ==> tsm.pruningBlockingOps == 0
+  assigns  tsm.pruningBlockingOps
+
+func (tsm *trieStorageManager) IsPruningBlocked() (r bool)
+  ensures  blocked-iff-operations-in-progress: r <==> tsm.pruningBlockingOps > 0
+  assigns  nothing
+
+// the request queue is a channel (outside the engine's subset): ghost view = number of queued requests + the fields of the last one
+spec fn snapQueued(tsm *trieStorageManager) []int
+spec fn snapLast(tsm *trieStorageManager) []*snapshotsQueueEntry
+
+func (tsm *trieStorageManager) writeOnChan(entry *snapshotsQueueEntry)
+  trusted
+  ensures  queued: snapQueued(tsm)[0] == old(snapQueued(tsm)[0]) + 1 && snapLast(tsm)[0] == entry
+  assigns  elems(snapQueued(tsm)), elems(snapLast(tsm))
+
+func (h data.CheckpointHashesHolder) RemoveCommitted(lastCommittedRootHash []byte)
+  assigns nothing
+func (h data.CheckpointHashesHolder) Remove(hash []byte)
+  assigns nothing
+// ASSUMPTION (checkpoints are incremental): a hash the holder does not list as dirty since the last checkpoint heads a subtree
+// that an earlier checkpoint / snapshot in the same database already contains
+spec fn inEarlierCheckpoint(k string) bool
+func (h data.CheckpointHashesHolder) ShouldCommit(hash []byte) (r bool)
+  ensures unchanged-subtrees-are-in-an-earlier-checkpoint: !r ==> inEarlierCheckpoint(str(hash))
+  assigns nothing
+
+// TakeSnapshot: pruning is blocked BEFORE the request is queued (the matching Exit is takeSnapshot's deferred call)
+func (tsm *trieStorageManager) TakeSnapshot(rootHash []byte, newDb bool, leavesChan chan core.KeyValueHolder)
+  requires collaborators-set: tsm.checkpointHashesHolder != nil
+  requires fewer-than-2^32-blocking-operations-in-progress: tsm.pruningBlockingOps < 4294967295
+  ensures  empty-trie-is-not-snapshotted: str(rootHash) == str(EmptyTrieHash) ==> tsm.pruningBlockingOps == old(tsm.pruningBlockingOps) && snapQueued(tsm)[0] == old(snapQueued(tsm)[0])
+  ensures  blocks-pruning: str(rootHash) != str(EmptyTrieHash) ==> tsm.pruningBlockingOps == old(tsm.pruningBlockingOps) + 1
+  ensures  one-snapshot-request-queued: str(rootHash) != str(EmptyTrieHash) ==> snapQueued(tsm)[0] == old(snapQueued(tsm)[0]) + 1 && fresh(snapLast(tsm)[0])
+  ensures  request-is-for-this-root: str(rootHash) != str(EmptyTrieHash) ==> snapLast(tsm)[0].rootHash == rootHash && snapLast(tsm)[0].newDb == newDb && snapLast(tsm)[0].entryType == 0 && snapLast(tsm)[0].leavesChan == leavesChan
+  assigns  tsm.pruningBlockingOps, elems(snapQueued(tsm)), elems(snapLast(tsm))
+
+func (tsm *trieStorageManager) SetCheckpoint(rootHash []byte, leavesChan chan core.KeyValueHolder)
+  requires fewer-than-2^32-blocking-operations-in-progress: tsm.pruningBlockingOps < 4294967295
+  ensures  empty-trie-is-not-checkpointed: str(rootHash) == str(EmptyTrieHash) ==> tsm.pruningBlockingOps == old(tsm.pruningBlockingOps) && snapQueued(tsm)[0] == old(snapQueued(tsm)[0])
+  ensures  blocks-pruning: str(rootHash) != str(EmptyTrieHash) ==> tsm.pruningBlockingOps == old(tsm.pruningBlockingOps) + 1
+  ensures  one-checkpoint-request-queued: str(rootHash) != str(EmptyTrieHash) ==> snapQueued(tsm)[0] == old(snapQueued(tsm)[0]) + 1 && fresh(snapLast(tsm)[0])
+  ensures  request-is-for-this-root: str(rootHash) != str(EmptyTrieHash) ==> snapLast(tsm)[0].rootHash == rootHash && snapLast(tsm)[0].newDb == false && snapLast(tsm)[0].entryType == 1 && snapLast(tsm)[0].leavesChan == leavesChan
+  assigns  tsm.pruningBlockingOps, elems(snapQueued(tsm)), elems(snapLast(tsm))
+
+// the counter protocol: blocked from the first Enter until the last Exit; a surplus Exit does not drive it below zero
+lemma blocked-until-every-operation-has-finished
+  vars tsm *trieStorageManager, c0 uint32
+  hyp  c0 == tsm.pruningBlockingOps && c0 < 4294967290
+  call _ = tsm.EnterPruningBufferingMode()
+  call _ = tsm.EnterPruningBufferingMode()
+  call _ = tsm.ExitPruningBufferingMode()
+  call b1 = tsm.IsPruningBlocked()
+  call _ = tsm.ExitPruningBufferingMode()
+  call b2 = tsm.IsPruningBlocked()
+  concl still-blocked-while-one-is-running: b1
+  concl back-to-the-start: tsm.pruningBlockingOps == c0 && (b2 <==> c0 > 0)
+
+lemma surplus-exit-keeps-zero
+  vars tsm *trieStorageManager
+  hyp  tsm.pruningBlockingOps == 0
+  call _ = tsm.ExitPruningBufferingMode()
+  call b = tsm.IsPruningBlocked()
+  concl not-negative-not-blocked: tsm.pruningBlockingOps == 0 && !b
+@*/
+
+/*@
+// ---------------------------------------------------------------------------------------------------------------
+// C10 (agent Q) — the snapshot / checkpoint traversal visits and writes every node.
+//   snapKey(n)             the hash of node n (the key it is stored under). Timeless: nodes are not modified during a traversal.
+//   dbHoldsKey(db, k)[0]   ghost: 1 = database db holds an entry under key k
+//   snapComplete(k, db)    "the whole subtree whose root has key k is in db": the LEAST relation closed under the three
+//                          def-complete-* rules attached to encodeNodeAndCommitToDB (the only place where a node is written):
+//                          a leaf is complete once written; an extension / branch node is complete once written while EVERY
+//                          occupied child position holds a loaded child whose subtree is complete.
+// The obligations `commitSnapshot#post:subtree-complete` of the three node types are the structural-recursion step: they hold
+// only if the child (every child) was resolved, its commitSnapshot was invoked and returned nil BEFORE the node itself is saved.
+spec fn snapKey(n node) string
+spec fn dbHoldsKey(db data.DBWriteCacher, k string) []int8
+  axiom dhkKey(base(dbHoldsKey(db, k))) == k
+spec fn dhkKey(r ref) string
+spec fn snapComplete(k string, db data.DBWriteCacher) bool
+spec fn leavesSent(ch chan core.KeyValueHolder) []int         // ghost: number of leaves handed to the data-trie walker on ch
+
+// covers(k, db): complete in db, or (checkpoints only) assumed to be there from an earlier checkpoint
+spec fn covers(k string, db data.DBWriteCacher) bool = snapComplete(k, db) || inEarlierCheckpoint(k)
+// every occupied position of the branch node holds a loaded child with a covered subtree
+spec fn branchChildrenComplete(bn *branchNode, db data.DBWriteCacher) bool = forall k :: 0 <= k && k < 17 ==> (bn.children[k] != nil ==> covers(snapKey(bn.children[k]), db)) && (bn.children[k] != nil || len(bn.EncodedChildren[k]) == 0)
+
+func encodeNodeAndCommitToDB(n node, db data.DBWriteCacher) (sz int, err error)
+  trusted
+  ensures  written: err == nil ==> dbHoldsKey(db, snapKey(n))[0] == 1
+  ensures  def-complete-leaf: err == nil && typeIs(n, ptr_leafNode) ==> snapComplete(snapKey(n), db)
+  ensures  def-complete-ext: err == nil && typeIs(n, ptr_extensionNode) && asExt(n).child != nil && covers(snapKey(asExt(n).child), db) ==> snapComplete(snapKey(n), db)
+  ensures  def-complete-branch: err == nil && typeIs(n, ptr_branchNode) && branchChildrenComplete(asBranch(n), db) ==> snapComplete(snapKey(n), db)
+  assigns  elems(dbHoldsKey(db, snapKey(n)))
+
+func writeNodeOnChannel(ln *leafNode, leavesChan chan core.KeyValueHolder) (err error)
+  trusted
+  ensures  no-channel-no-effect: leavesChan == nil ==> err == nil
+  ensures  leaf-handed-over: leavesChan != nil && err == nil ==> leavesSent(leavesChan)[0] == old(leavesSent(leavesChan)[0]) + 1
+  assigns  elems(leavesSent(leavesChan))
+
+// the recursive calls on children go through the node interface: ASSUMPTION = the claim of the three implementations below.
+// Frame: the callee writes node fields (child pointers, hashes) only at n and below n; the trie is a tree, so none of them is
+// a field of the caller or of its other children (assumption): to the caller only the ghost state changes.
+func (n trie.node) commitSnapshot(originDb data.DBWriteCacher, targetDb data.DBWriteCacher, leavesChan chan core.KeyValueHolder) (err error)
+  ensures  subtree-complete: err == nil ==> snapComplete(snapKey(n), targetDb)
+  assigns  allelems(dbHoldsKey(targetDb, "")), elems(leavesSent(leavesChan))
+
+func (n trie.snapshotNode) commitSnapshot(originDb data.DBWriteCacher, targetDb data.DBWriteCacher, leavesChan chan core.KeyValueHolder) (err error)
+  ensures  subtree-complete: err == nil ==> snapComplete(snapKey(n), targetDb)
+  assigns  allelems(dbHoldsKey(targetDb, "")), elems(leavesSent(leavesChan))
+
+func (ln *leafNode) commitSnapshot(originDb data.DBWriteCacher, targetDb data.DBWriteCacher, leavesChan chan core.KeyValueHolder) (err error)
+  ensures  subtree-complete: err == nil ==> snapComplete(snapKey(iface(ln)), targetDb)
+  ensures  leaf-written: err == nil ==> dbHoldsKey(targetDb, snapKey(iface(ln)))[0] == 1
+  ensures  leaf-handed-to-the-data-trie-walker: err == nil && leavesChan != nil ==> leavesSent(leavesChan)[0] == old(leavesSent(leavesChan)[0]) + 1
+  assigns  elems(dbHoldsKey(targetDb, snapKey(iface(ln)))), elems(leavesSent(leavesChan))
+
+func (en *extensionNode) saveToStorage(targetDb data.DBWriteCacher) (err error)
+  ensures  written: err == nil ==> dbHoldsKey(targetDb, snapKey(iface(en)))[0] == 1
+  ensures  complete-if-child-is: err == nil && old(en.child) != nil && covers(snapKey(old(en.child)), targetDb) ==> snapComplete(snapKey(iface(en)), targetDb)
+  assigns  en.child, elems(dbHoldsKey(targetDb, snapKey(iface(en))))
+
+func (en *extensionNode) commitSnapshot(originDb data.DBWriteCacher, targetDb data.DBWriteCacher, leavesChan chan core.KeyValueHolder) (err error)
+  ensures  subtree-complete: err == nil ==> snapComplete(snapKey(iface(en)), targetDb)
+  ensures  node-written: err == nil ==> dbHoldsKey(targetDb, snapKey(iface(en)))[0] == 1
+  assigns  en.child, asBranch(iface(en)).children, allelems(dbHoldsKey(targetDb, "")), elems(leavesSent(leavesChan))
+
+func (bn *branchNode) removeChildrenPointers()
+  ensures  all-dropped: forall k :: 0 <= k && k < 17 ==> bn.children[k] == nil
+  assigns  bn.children
+
+loop 1
+  invariant index: -1 <= rangeindex && rangeindex < 17
+  invariant dropped-so-far: forall k :: 0 <= k && k <= rangeindex ==> bn.children[k] == nil
+
+func (bn *branchNode) saveToStorage(targetDb data.DBWriteCacher) (err error)
+  ensures  written: err == nil ==> dbHoldsKey(targetDb, snapKey(iface(bn)))[0] == 1
+  ensures  complete-if-children-are: err == nil && old(branchChildrenComplete(bn, targetDb)) ==> snapComplete(snapKey(iface(bn)), targetDb)
+  assigns  bn.children, elems(dbHoldsKey(targetDb, snapKey(iface(bn))))
+
+// all 17 positions: resolve when collapsed, skip when empty, otherwise snapshot the child; only then the node itself
+func (bn *branchNode) commitSnapshot(originDb data.DBWriteCacher, targetDb data.DBWriteCacher, leavesChan chan core.KeyValueHolder) (err error)
+  requires inv(bn)
+  ensures  subtree-complete: err == nil ==> snapComplete(snapKey(iface(bn)), targetDb)
+  ensures  node-written: err == nil ==> dbHoldsKey(targetDb, snapKey(iface(bn)))[0] == 1
+  assigns  bn.children, asExt(iface(bn)).child, allelems(dbHoldsKey(targetDb, "")), elems(leavesSent(leavesChan))
+
+loop 1
+  invariant index: -1 <= rangeindex && rangeindex < 17
+  invariant width-kept: inv(bn)
+  invariant visited-positions-complete: forall k :: 0 <= k && k <= rangeindex ==> (bn.children[k] != nil ==> snapComplete(snapKey(bn.children[k]), targetDb)) && (bn.children[k] != nil || len(bn.EncodedChildren[k]) == 0)
+@*/
+
+/*@
+// ---- checkpoints: the same traversal, cut off at subtrees that are not dirty since the last checkpoint ------------------------
+// (hash caches: computeAndSetNodeHash writes only the node's cached hash / cached child hashes with the values they denote;
+// these caches are not read by the contracts, hence the empty frame of this trusted contract)
+func computeAndSetNodeHash(n node) (key []byte, err error)
+  trusted
+  ensures  key-is-the-node-key: err == nil ==> str(key) == snapKey(n)
+  assigns  nothing
+
+func (n trie.node) commitCheckpoint(originDb data.DBWriteCacher, targetDb data.DBWriteCacher, checkpointHashes data.CheckpointHashesHolder, leavesChan chan core.KeyValueHolder) (err error)
+  ensures  subtree-covered: err == nil ==> covers(snapKey(n), targetDb)
+  assigns  allelems(dbHoldsKey(targetDb, "")), elems(leavesSent(leavesChan))
+
+func (n trie.snapshotNode) commitCheckpoint(originDb data.DBWriteCacher, targetDb data.DBWriteCacher, checkpointHashes data.CheckpointHashesHolder, leavesChan chan core.KeyValueHolder) (err error)
+  ensures  subtree-covered: err == nil ==> covers(snapKey(n), targetDb)
+  assigns  allelems(dbHoldsKey(targetDb, "")), elems(leavesSent(leavesChan))
+
+func (ln *leafNode) commitCheckpoint(originDb data.DBWriteCacher, targetDb data.DBWriteCacher, checkpointHashes data.CheckpointHashesHolder, leavesChan chan core.KeyValueHolder) (err error)
+  requires holder-set: checkpointHashes != nil
+  ensures  subtree-covered: err == nil ==> covers(snapKey(iface(ln)), targetDb)
+  ensures  written-unless-unchanged: err == nil ==> dbHoldsKey(targetDb, snapKey(iface(ln)))[0] == 1 || inEarlierCheckpoint(snapKey(iface(ln)))
+  assigns  elems(dbHoldsKey(targetDb, snapKey(iface(ln)))), elems(leavesSent(leavesChan))
+
+func (en *extensionNode) commitCheckpoint(originDb data.DBWriteCacher, targetDb data.DBWriteCacher, checkpointHashes data.CheckpointHashesHolder, leavesChan chan core.KeyValueHolder) (err error)
+  requires holder-set: checkpointHashes != nil
+  ensures  subtree-covered: err == nil ==> covers(snapKey(iface(en)), targetDb)
+  assigns  en.child, asBranch(iface(en)).children, allelems(dbHoldsKey(targetDb, "")), elems(leavesSent(leavesChan))
+
+func (bn *branchNode) commitCheckpoint(originDb data.DBWriteCacher, targetDb data.DBWriteCacher, checkpointHashes data.CheckpointHashesHolder, leavesChan chan core.KeyValueHolder) (err error)
+  requires inv(bn)
+  requires holder-set: checkpointHashes != nil
+  ensures  subtree-covered: err == nil ==> covers(snapKey(iface(bn)), targetDb)
+  assigns  bn.children, asExt(iface(bn)).child, allelems(dbHoldsKey(targetDb, "")), elems(leavesSent(leavesChan))
+
+loop 1
+  invariant index: -1 <= rangeindex && rangeindex < 17
+  invariant width-kept: inv(bn)
+  invariant visited-positions-covered: forall k :: 0 <= k && k <= rangeindex ==> (bn.children[k] != nil ==> covers(snapKey(bn.children[k]), targetDb)) && (bn.children[k] != nil || len(bn.EncodedChildren[k]) == 0)
+@*/
+
+/*@
+// the engine generates no `refines` obligations: the three implementations deliver the interface clause that the recursive
+// calls assume (n == iface(receiver))
+lemma leaf-snapshot-refines
+  vars n node, ln *leafNode, o data.DBWriteCacher, t data.DBWriteCacher
+  hyp  n == iface(ln) && ln != nil
+  call err = ln.commitSnapshot(o, t, nil)
+  concl subtree-complete: err == nil ==> snapComplete(snapKey(n), t)
+
+lemma extension-snapshot-refines
+  vars n node, en *extensionNode, o data.DBWriteCacher, t data.DBWriteCacher
+  hyp  n == iface(en) && en != nil
+  call err = en.commitSnapshot(o, t, nil)
+  concl subtree-complete: err == nil ==> snapComplete(snapKey(n), t)
+
+lemma branch-snapshot-refines
+  vars n node, bn *branchNode, o data.DBWriteCacher, t data.DBWriteCacher
+  hyp  n == iface(bn) && bn != nil && inv(bn)
+  call err = bn.commitSnapshot(o, t, nil)
+  concl subtree-complete: err == nil ==> snapComplete(snapKey(n), t)
+
+lemma branch-checkpoint-refines
+  vars n node, bn *branchNode, o data.DBWriteCacher, t data.DBWriteCacher, h data.CheckpointHashesHolder
+  hyp  n == iface(bn) && bn != nil && inv(bn) && h != nil
+  call err = bn.commitCheckpoint(o, t, h, nil)
+  concl subtree-covered: err == nil ==> covers(snapKey(n), t)
+
+// ---- the worker side of one queued request: whatever happens, the pruning block taken by TakeSnapshot / SetCheckpoint is released once
+func (s data.SnapshotDbHandler) Get(key []byte) (r []byte, err error)
+  assigns nothing
+
+func (e error) Error() (s string)
+  assigns nothing
+
+func (tsm *trieStorageManager) isPresentInLastSnapshotDb(rootHash []byte) (r bool)
+  requires snapshot-handles-set: forall k :: 0 <= k && k < len(tsm.snapshots) ==> tsm.snapshots[k] != nil
+  assigns  nothing
+
+func newSnapshotNode(db data.DBWriteCacher, msh marshal.Marshalizer, hsh hashing.Hasher, rootHash []byte) (n snapshotNode, err error)
+  trusted
+  ensures  loaded: err == nil ==> n != nil
+  assigns  nothing
+
+func (tsm *trieStorageManager) getSnapshotDb(newDb bool) (db data.DBWriteCacher)
+  trusted
+  assigns  tsm.snapshots, tsm.snapshotId
+
+// NOT in specs/C10.json: the deferred closure ends with close(leavesChan), which the engine does not model (whole-heap havoc
+// after ExitPruningBufferingMode), so the clause below is stated but not discharged.
+func (tsm *trieStorageManager) takeSnapshot(snapshotEntry *snapshotsQueueEntry, msh marshal.Marshalizer, hsh hashing.Hasher)
+  requires entry-set: snapshotEntry != nil
+  requires snapshot-handles-set: forall k :: 0 <= k && k < len(tsm.snapshots) ==> tsm.snapshots[k] != nil
+  ensures  releases-the-pruning-block-exactly-once: old(tsm.pruningBlockingOps) >= 1 ==> tsm.pruningBlockingOps == old(tsm.pruningBlockingOps) - 1
 @*/
